@@ -188,6 +188,17 @@ func Topo(kind string, shape PathShape, goFunc bool, root string, n int) *spec.S
 		conn("src.out", "A.in")
 		conn("A.out", "CC.in")
 		conn("CC.out", "B.in")
+	case "concatgroup":
+		// Concatenator with GroupByTag: one gathered file per tag value (two values), each consumed by B
+		addSrc("src", 2*n)
+		addProc("A", in, []string{"out"}, nil, map[string]string{"sleep": "25"}, pk)
+		s.Procs = append(s.Procs, &spec.Proc{Name: "T", Kind: spec.KMapToTags, Tags: []*spec.TagRule{{Key: "grp", Rule: "parity"}}},
+			&spec.Proc{Name: "CC", Kind: spec.KConcat, OutPath: "gathered.txt", GroupBy: "grp"})
+		addProc("B", in, []string{"out"}, nil, nil, spec.KCmd)
+		conn("src.out", "A.in")
+		conn("A.out", "T.in")
+		conn("T.out", "CC.in")
+		conn("CC.out", "B.in")
 	case "tagzip":
 		// two differently tagged branches zipped by a two-in-port process
 		addSrc("src", n)
